@@ -82,6 +82,15 @@ class Check:
         self.rng = random.Random(seed)
         self.known = self._load_known()
         self.logs = []
+        # stale replay files of an earlier run with the same tier/seed would mislead a reader
+        rd = os.path.join(ROOT, "replay", pid)
+        if os.path.isdir(rd):
+            for f in os.listdir(rd):
+                if f.startswith("%s_%d_" % (tier, seed)):
+                    try:
+                        os.remove(os.path.join(rd, f))
+                    except OSError:
+                        pass
 
     # ---------- known findings ----------
     def _load_known(self):
